@@ -2,7 +2,7 @@
 """Regenerates /verif/MANIFEST.json from tools/claims/<ID>.json and tools/not_applicable.json, and validates it."""
 import json, os, glob
 
-HOOK_COMMITS = ["e632d3635", "f1dae8791"]
+HOOK_COMMITS = ["e632d3635", "f1dae8791", "b8cb9c0c6"]
 NOT_BUILT_REASON = "not claimed yet: the simulator check for this property is not built at this commit (planned in DESIGN.md 9.2); listed here only so that the manifest is complete"
 
 def main():
